@@ -237,6 +237,9 @@ func (d *decompressor) nextBlockAt(off int64, rs io.ReadSeeker) *decompressor {
 		}
 		d.err = d.cr.seek(rs, off)
 		if d.err != nil {
+			// Label the failed block with the offset that was asked
+			// for so that the consumer recognises it.
+			d.blk.setBase(off)
 			d.wg.Done()
 			return d
 		}
